@@ -139,11 +139,21 @@ fn o11_1_scale_rect() {
 }
 
 //@ harness: o11_2_rect_size_linear props=C11 tier=quick obl=O11.2 timeout=1500 mem=10
-//@ desc: the rendered width/height of a scaled Rect (differences of its scaled corners) equal scale x the unscaled width/height, for lattice corners <= 400 cells and the same scale set: rendered sizes, not just stored fields, scale linearly
+//@ desc: the rendered width/height of a scaled Rect (differences of its scaled corners) equal scale x the unscaled width/height, for lattice corners <= 400 cells and every scale of the property's grid {0.5, 1, 3, 8, 10, 20, 37.5}: rendered sizes, not just stored fields, scale linearly
 //@ encodes: Rect::scale, Rect::width, Rect::height
 #[kani::proof]
 fn o11_2_rect_size_linear() {
-    let s = any_scale();
+    let si: u8 = kani::any();
+    kani::assume(si < 7);
+    let s: f32 = match si {
+        0 => 0.5,
+        1 => 1.0,
+        2 => 3.0,
+        3 => 8.0,
+        4 => 10.0,
+        5 => 20.0,
+        _ => 37.5,
+    };
     let (a, b) = (any_pt(), any_pt());
     kani::assume(a.x <= b.x && a.y <= b.y);
     let r0 = Rect { start: a, end: b, is_filled: false, radius: None, is_broken: false };
